@@ -399,7 +399,9 @@ def check_query(ctx, cfg, tus, tag):
                 if cfg == 'INTERNAL':
                     obj = strip_site(ret)[2]
                     obj = strip_site(obj)
-                    if isinstance(obj, tuple) and obj[0] == 'glob':
+                    while isinstance(obj, tuple) and obj and obj[0] == 'deref' and len(obj) == 2:
+                        obj = strip_site(obj[1])         # *p designates the object p points to; objects are named by their pointer
+                    if is_persistent_cell(obj):
                         GT = obj
                     else:
                         ctx.undecided(R2, inst, 'GetNumTaskThreads is called on %s, not on a global scheduler' % show_val(obj),
@@ -414,6 +416,15 @@ def check_query(ctx, cfg, tus, tag):
                 ctx.undecided(R2, inst, 'returned value %s is not a recognised thread-count query (required: %s)'
                               % (show_val(ret), want), tu.fn_loc(f))
     return G, GT
+
+
+def is_persistent_cell(loc):
+    """a global / static variable or a data member of one"""
+    if not (isinstance(loc, tuple) and loc):
+        return False
+    while loc[0] == 'field' and isinstance(loc[1], tuple) and loc[1]:
+        loc = loc[1]
+    return loc[0] == 'glob'
 
 
 def find_var_decl(tu, f, name):
@@ -741,7 +752,7 @@ def check_init(ctx, cfg, tus, tag, G, GT):
                 if cur.as_atom() != obj:
                     bad = True
                     report(ctx, p, R1, inst, 'Initialize is called on %s but numTaskingThreads reads the scheduler in `%s` '
-                           '(which holds %s)' % (show_val(e[2]), GT[1].split('::')[-1], show_val(cur)), e[4],
+                           '(which holds %s)' % (show_val(e[2]), show_val(Poly.atom(GT)), show_val(cur)), e[4],
                            '%s|%s|initTaskingSystem|%s:scheduler-not-the-queried-one' % (R1, e[4].split(':')[0], cfg))
         # ---- R-C13-10: when the call returns, the last write to the backend limit is the one that carries the new n
         if cfg != 'DEBUG' and hi >= 1 and limits and dtor_limits:
